@@ -6,7 +6,7 @@ import cfgs as C
 import fields as F
 import hist as H
 import props.cfgprops as P
-from core import Result, stable
+from core import Result, stable, guard
 
 RULE = ("random schemas (depth <= 2; every built-in field kind with boundary-heavy options, valid defaults, sub-schemas, config types, "
         "lists of configurations, dynamic schemas, virtual fields, instance methods, feature flags, schema validators) x histories of "
@@ -286,8 +286,8 @@ def run(ctx, n_quick=250, n_thorough=8000):
         oracle(res, case, sk, ops, impl, live, tmp, keypath)
         oracle_stepwise(res, case, sk, ops, tmp, keypath)
     P.run_stream(ctx, res, "C01", ctx.n(n_quick, n_thorough), orc)
-    proxy_stream(ctx, res, ctx.n(150, 5000))
-    boundary_stream(ctx, res, ctx.n(120, 3000))
+    guard(res, "C01", proxy_stream, ctx, res, ctx.n(150, 5000))
+    guard(res, "C01", boundary_stream, ctx, res, ctx.n(120, 3000))
     return res
 
 
